@@ -239,8 +239,10 @@ structure OrtArgs.Feas (d : OrtArgs K) (x : ℕ → K) : Prop where
 /-- does row `i` have a stored entry (`len(linear[i].indices) > 0`)? -/
 def hasStored (P : ConeProg K) (i : ℕ) : Bool := (List.range P.lp.nc).any fun j => P.st i j
 
-/-- rows for which `left` is not a bare number, i.e. the rows OR-Tools receives -/
-def ortKept (P : ConeProg K) : List ℕ := (List.range P.lp.nr).filter fun i => hasStored P i
+/-- the rows OR-Tools receives: every row.  (A row whose CSR slice is empty - `left` is then a bare
+number - used to be dropped; since the repair of `ort_solver.solve` it is handed over as the empty
+`RowConstraint(lo, const)`, i.e. `0 == const` / `0 <= const`.) -/
+def ortKept (P : ConeProg K) : List ℕ := List.range P.lp.nr
 
 /-- `left = sum(coeff[k] * xs[indices[k]])` over the stored entries of row `i`, and
 `solver.Add(left == const[i])` / `solver.Add(left <= const[i])` -/
@@ -249,7 +251,7 @@ def ortRow (P : ConeProg K) (i : ℕ) : OrtRow K where
   lo := if P.lp.eq i then some (P.lp.b i) else none
   hi := P.lp.b i
 
-/-- `ort_solver.solve(formula)`: a row whose CSR slice is empty is silently dropped -/
+/-- `ort_solver.solve(formula)`: one constraint per row, in row order -/
 def ortools (P : ConeProg K) (vt : ℕ → Char) : OrtArgs K :=
   let L := P.lp
   { solver := if allCont vt L.nc then "GLOP" else "SCIP"
